@@ -52,7 +52,7 @@ func genC08(r *rand.Rand) *c08Case {
 		case "x-forwarded-host":
 			v = "evil.example"
 		case "forwarded":
-			v = choose(r, []string{"for=6.6.6.6; proto=https", "for=6.6.6.6"})
+			v = choose(r, []string{"for=6.6.6.6; proto=https", "for=6.6.6.6", "for=6.6.6.6; proto=", "for=a;proto=https, for=b", "for=a; proto=\"https\"", "for=a; httpproto=http/1.1", "for=a;PROTO=https"})
 		default:
 			v = choose(r, []string{"6.6.6.6", "on", "x"})
 		}
@@ -143,8 +143,8 @@ func c08Headers(c *ctx) {
 				c.R.Violate("c08v:xfp-client-value-lost", fmt.Sprintf("X-Forwarded-Proto %q, client sent %q", h.Get("X-Forwarded-Proto"), s), in)
 				return
 			}
-		} else if f := sent.Get("Forwarded"); !strings.Contains(f, "proto=") {
-			if g := h.Values("X-Forwarded-Proto"); len(g) != 1 || g[0] != proto {
+		} else if fp := c08ForwardedProto(sent.Values("Forwarded")); true {
+			if g := h.Values("X-Forwarded-Proto"); len(g) != 1 || (g[0] != proto && !(fp != "" && strings.EqualFold(g[0], fp))) {
 				c.R.Violate("c08v:xfp-wrong", fmt.Sprintf("X-Forwarded-Proto %q on a %s connection (Upgrade %q)", g, proto, cs.Upgrade), in)
 				return
 			}
